@@ -586,6 +586,10 @@ class CoordMatcher(WrappingMatcher):
         self._termcount = len(list(child.term_matchers()))
         self._scale = scale
 
+    def copy(self):
+        # (WrappingMatcher.copy passes a boost argument this class lacks)
+        return self._replacement(self.child.copy())
+
     def _replacement(self, newchild):
         m = self.__class__(newchild, scale=self._scale)
         # The number of terms of the query does not change when replace()
